@@ -23,7 +23,7 @@ def _detect(args):
                 st.pc += [alen, simplify(A), ULT(P.pc, n), J.nslots == n + 1, ULE(off0, 1 << 32), ULE(J.prog_len, 8000000), UGE(P.pc, 1),
                           Or(Not(J.jm_we()), UGE(J.jm_len(), off0 + 64)), ULE(J.jm_len(), 1 << 40), ULE(BitVec('jm.contents.ptr', 64), 1 << 62), ULE(BitVec('pc_locs.ptr', 64), 1 << 62)]
                 n_assumed = len(st.pc); paths = J.eng.explore(st, cuts={(J.f.name, J.head)})
-                for nb in c12a.foreign_program_reads(J, P, paths, pr, name, n_assumed)[:2]: found.append(dict(nb, opc=opc, name=name))
+                for nb in c12a.foreign_program_reads(J, P, paths, pr, name, n_assumed)[:8]: found.append(dict(nb, opc=opc, name=name))
                 pr.out['programs'] += 1
             except mirsym.Unsupported as e: pr.out['errors'].append(f'context premise {name}: {e}')
         for fn in J.eng.used_funcs:
